@@ -219,6 +219,8 @@ def provoked():
     cases.append(('filter_rows on a missing field', lambda root: [list(data), DF.filter_rows(equals=[dict(zz=1)])], {'KeyError'}))
     cases.append(('source dies after the inference sample', lambda root: [dying_source(150, 120)], {'RuntimeError'}))
     cases.append(('source dies inside the inference sample', lambda root: [dying_source(150, 5)], {'RuntimeError'}))
+    cases.append(('iterable source: a value beyond the inference sample contradicts the inferred type',
+                  lambda root: [[dict(a=i) for i in range(150)] + [dict(a='x'), dict(a=5)]], {'CastError'}))
     cases.append(('set_type with an uncastable value', lambda root: [list(data), DF.set_type('b', type='integer')], {'ValidationError'}))
     cases.append(('validate() callable rejects a row', lambda root: [list(data), DF.validate('a', lambda v: v < 3)], {'ValidationError'}))
     cases.append(('add_computed_field format with a missing key', lambda root: [list(data), DF.add_computed_field(target='f', operation='format', with_='{nope}')], {'KeyError'}))
